@@ -2454,7 +2454,7 @@ fn gen_c02(r: &mut Rng, seed: u64) -> Scenario {
     let mut tags = sc.tags.clone();
     let nh = r.range(1, 4);
     for _ in 0..nh {
-        match r.below(20) {
+        match r.below(21) {
             0 | 1 => {
                 // hostile crash context registers
                 let blamed = match &sc.workload { Workload::Dump(p) => p.opts.blamed, _ => PID };
@@ -2700,6 +2700,16 @@ fn gen_c02(r: &mut Rng, seed: u64) -> Scenario {
                     }
                 }
                 push_tags(&mut tags, &["h:stop-late"]);
+            }
+            20 => {
+                // a thread in an uninterruptible sleep that does not end (a vfork parent whose child never
+                // execs, a hung network file system, a frozen cgroup): it takes no signal, ever
+                let n = sc.world.threads.len() as u64;
+                let ti = r.below(n) as usize;
+                if !sc.world.threads[ti].zombie {
+                    sc.world.threads[ti].blocked_until_ns = 1_000_000_000_000_000;
+                    push_tags(&mut tags, &["h:sleeps-forever"]);
+                }
             }
             _ => {
                 // events: process killed or threads exiting at arbitrary calls
